@@ -72,8 +72,81 @@ pub fn generated(rng: &mut Rng, n: usize, thorough: bool) -> Vec<(String, Doc)> 
         o.w_self_send = 2;
         o.w_history = 3;
         o.w_final = 2;
-        let d = generate(rng, &o, &format!("ser{}", i));
+        let mut d = generate(rng, &o, &format!("ser{}", i));
+        // every second document carries the optional per-state blocks in random combinations
+        // (state-level <datamodel>, <donedata>; every fourth also <invoke>, which keeps it out of
+        // the behaviour comparison)
+        if i % 2 == 1 {
+            decorate(rng, &mut d.root, dm, i % 4 == 3, true);
+        }
         v.push((format!("generated-{}-{}", dm.name(), i), d));
     }
     v
+}
+
+fn decorate(rng: &mut Rng, n: &mut Node, dm: Dm, invokes: bool, is_root: bool) {
+    let kind_final = n.kind == Kind::Final;
+    if !n.is_history() && !is_root {
+        if !kind_final && dm != Dm::Null && rng.below(3) == 0 {
+            let k = 1 + rng.below(3);
+            let mut x = String::from("<datamodel>");
+            for j in 0..k {
+                match rng.below(3) {
+                    0 => x.push_str(&format!("<data id=\"sd_{}_{}\" expr=\"{}\"/>", n.id, j, rng.below(100000))),
+                    1 => x.push_str(&format!("<data id=\"sd_{}_{}\">'t{}'</data>", n.id, j, rng.below(1000))),
+                    _ => x.push_str(&format!("<data id=\"sd_{}_{}\"/>", n.id, j)),
+                }
+            }
+            x.push_str("</datamodel>");
+            n.extra_xml.push(x);
+        }
+        if kind_final && dm != Dm::Null && rng.below(2) == 0 {
+            let x = match rng.below(3) {
+                0 => format!("<donedata><param name=\"p\" expr=\"{}\"/><param name=\"q{}\" expr=\"'s'\"/></donedata>", rng.below(1000), rng.below(10)),
+                1 => format!("<donedata><content>plain text {}</content></donedata>", rng.below(1000)),
+                _ => format!("<donedata><content expr=\"{}\"/></donedata>", rng.below(1000)),
+            };
+            n.extra_xml.push(x);
+        }
+        if invokes && !kind_final && rng.below(3) == 0 {
+            for j in 0..(1 + rng.below(2)) {
+                let mut a = String::new();
+                match rng.below(3) {
+                    0 => a.push_str(&format!(" id=\"inv_{}_{}\"", n.id, j)),
+                    1 if dm != Dm::Null => a.push_str(" idlocation=\"v1\""),
+                    _ => {}
+                }
+                match rng.below(3) {
+                    0 => a.push_str(" type=\"http://www.w3.org/TR/scxml/\""),
+                    1 => a.push_str(" type=\"scxml\""),
+                    _ if dm != Dm::Null => a.push_str(" typeexpr=\"'scxml'\""),
+                    _ => {}
+                }
+                if rng.below(2) == 0 {
+                    a.push_str(" autoforward=\"true\"");
+                }
+                if dm != Dm::Null && rng.below(3) == 0 {
+                    a.push_str(" namelist=\"v1 v2\"");
+                }
+                let mut body = String::new();
+                match rng.below(4) {
+                    0 => a.push_str(&format!(" src=\"file:child{}.scxml\"", rng.below(100))),
+                    1 if dm != Dm::Null => a.push_str(" srcexpr=\"'file:child' + 1\""),
+                    2 => body.push_str(&format!("<content><scxml xmlns=\"http://www.w3.org/2005/07/scxml\" version=\"1.0\" datamodel=\"{}\"><final id=\"kf{}\"/></scxml></content>", dm.name(), rng.below(100))),
+                    _ if dm != Dm::Null => body.push_str("<content expr=\"v1\"/>"),
+                    _ => {}
+                }
+                if dm != Dm::Null && rng.below(2) == 0 {
+                    body.push_str(&format!("<param name=\"pa\" expr=\"{}\"/><param name=\"pb\" location=\"v2\"/>", rng.below(1000)));
+                }
+                if dm != Dm::Null && rng.below(2) == 0 {
+                    body.push_str(&format!("<finalize><assign location=\"v1\" expr=\"{}\"/><log expr=\"'fin'\"/></finalize>", rng.below(1000)));
+                }
+                n.extra_xml.push(format!("<invoke{}>{}</invoke>", a, body));
+            }
+        }
+    }
+    for c in n.children.iter_mut() {
+        decorate(rng, c, dm, invokes, false);
+    }
 }
